@@ -304,6 +304,19 @@ def audit_cases(rng, full):
             b = bytearray(q['bytes']); struct.pack_into('<I', b, 56, size)
             if hl: struct.pack_into('<I', b, 0, hl)
             c = mk(q, ('count', 7), req=bytes(b), cap=cap); c['remap'] = remap
+    # H (audit6). the metrics hook x the paths that leave before the dispatch: a length field beyond MAX + HDR (answered / FORGET
+    #    dropped) and an id remap that fails -- the hook log (nothing collected, nothing released) must be the same on both paths
+    for op in (1, 2, 15, 42):
+        q = S.gen_wf(rng, op)
+        for hl in (MAXBUF + HDRSZ + 1, (1 << 32) - 1):
+            b = bytearray(q['bytes']); struct.pack_into('<I', b, 0, hl)
+            mk(q, req=bytes(b), hook=True, cap=4096)
+        c = mk(q, hook=True, cap=4096); c['remap'] = 'fail'
+    # I (audit6). READ failing after it pushed data; the error kinds beyond the first ten through the async reply helpers
+    for c0 in S.gen_readerr_cases(rng, 0):
+        c0['block'] = 'audit'; c0['half'] = 0; out.append(c0)
+    for i, c0 in enumerate(S.gen_errkind_ext_cases(rng, 0)):
+        if full or i % 4 == 0: c0['block'] = 'audit'; c0['half'] = 1; out.append(c0)
     # F. the fd refuses the write (fusedev): both handlers must report the failure alike; not modelled (the models' fd accepts)
     for op in ASYNC_OPS + (10, 28, 38, 2):
         q = S.gen_wf(rng, op)
@@ -383,7 +396,7 @@ def case_json(c, o=None):
         for m in ('sync', 'async'):
             if m in o:
                 x = o[m]
-                d['observed_' + m] = {'res': x['res'], 'panic': x['panic'], 'calls': x['calls'], 'packets': [p.hex() for p in x['packets']], 'mem': x['mem'].hex(), 'canary_ok': x['canary']}
+                d['observed_' + m] = {'res': x['res'], 'panic': x['panic'], 'calls': x['calls'], 'packets': [p.hex() for p in x['packets']], 'mem': x['mem'].hex(), 'canary_ok': x['canary'], 'hooklog': x.get('hooklog')}
     return d
 
 def run_check(tier, seed):
